@@ -1,5 +1,6 @@
 import SciVerif.Tie.Task
 import SciVerif.Props.C06
+import SciVerif.Tie.Pins
 /-! Tie A obligations for C06 on the current source. -/
 namespace SciVerif.Tie
 open SciVerif.Slots
@@ -14,7 +15,25 @@ theorem c06_on_source (max : Nat) (cores : List Nat) (sched : List Nat) (s : St)
     (h : run slotSem (init max cores) sched = some s) :
     running s.tasks ≤ tokens s.tasks ∧ tokens s.tasks ≤ max := c06_bound slotSem max cores sched s h
 
+
+-- BEGIN PINS (written by bin/mkpins; do not edit by hand)
+/-- the Go functions this property's model and obligations were written against have exactly the
+pinned skeletons (SHA-256 prefix of the atom list) -/
+theorem pinned_skeletons_c06 :
+    pinsOk
+    [("Scipipe.FinalizePaths", "291fc0cefa37cea9"),
+     ("Scipipe.Task_Execute", "40fd1fec0c69deb2"),
+     ("Scipipe.Task_anyOutputsExist", "0609a842b7aaf7a8"),
+     ("Scipipe.Task_executeCommand", "98e77d849c0638cb"),
+     ("Scipipe.Task_finalizePaths", "9cd0530d4e86fa92"),
+     ("Scipipe.Task_formatCommand", "ccbe98735ce5c7d6"),
+     ("Scipipe.Workflow_DecConcurrentTasks", "2862c41bbe9893c5"),
+     ("Scipipe.Workflow_IncConcurrentTasks", "acd0e561d4db6cb8"),
+     ("Scipipe.newWorkflowWithoutLogging", "6bb5eb2ae17350a8")] = true := by decide
+-- END PINS
+
 end SciVerif.Tie
+#print axioms SciVerif.Tie.pinned_skeletons_c06
 #print axioms SciVerif.Tie.generated_slot_counts
 #print axioms SciVerif.Tie.generated_slot_order
 #print axioms SciVerif.Tie.c06_on_source
